@@ -11,7 +11,9 @@ History tokens (one per data unit), optional modifiers after ':' separated by ':
   A<len> Z<len>  auxiliary data / padding with <len> payload bytes
   E              end of sequence
   modifiers      n0 (next_parse_offset = 0)  nw (true + 1)  n<k>  |  p0  pw (true + 1)  p<k>
-Sequences are separated by the token '/'.
+Sequences are separated by the token '/'.  A sequence may start with a configuration token
+  C<hq|ld>.<pcm>.<major_version|->   overriding profile, picture coding mode and major version
+for that sequence only (used by the concatenation property C10).
 """
 import copy
 import sys
@@ -220,7 +222,13 @@ def build(cfg, history):
     out = bytearray()
     flat = []
     versions = []
+    base_cfg = cfg
     for si, toks in enumerate(seqs):
+        cfg = base_cfg
+        if toks and toks[0][0] == "C":
+            prof, pcm, mv = toks[0][1:].split(".")
+            cfg = Config(profile=prof, pcm=int(pcm), major_version=None if mv == "-" else int(mv), slices=base_cfg.slices)
+            toks = toks[1:]
         version = cfg.major_version if cfg.major_version is not None else auto_version(cfg, toks)
         versions.append(version)
         metas, chunks = [], []
@@ -229,6 +237,7 @@ def build(cfg, history):
             b, meta = unit_bytes(cfg, body, version)
             meta = dict(meta)
             meta["mods"] = mods
+            meta["pcm"] = cfg.pcm
             meta["len"] = len(b)
             metas.append(meta)
             chunks.append(bytearray(b))
@@ -308,8 +317,98 @@ def model_line(cfg, flat, level_pattern_tokens):
             parts.append("/")
             continue
         if m["kind"] == "H":
-            parts.append("H %d %d %d %d %d %d %d" % (m["code"], m["len"], m["next"], m["prev"], m["a"], m["major_version"], m["profile"]))
+            parts.append("H %d %d %d %d %d %d %d %d" % (m["code"], m["len"], m["next"], m["prev"], m["a"], m["major_version"], m["profile"], m["pcm"]))
         else:
             parts.append("%s %d %d %d %d %d %d %d %d" % (m["kind"], m["code"], m["len"], m["next"], m["prev"],
                                                        m.get("a", 0), m.get("b", 0), m.get("c", 0), m.get("d", 0)))
     return head + " " + " ; ".join(parts)
+
+
+# ---------------------------------------------------------------------------------------------
+# Independent reference acceptor, written from the text of property C01 (declarative, per
+# sequence).  Used ONLY by failing-input searches: "the real validator's accept/reject differs
+# from the rules" is the violation predicate; it never decides a verdict by itself.
+NAMES = {0x00: "sequence_header", 0x10: "end_of_sequence", 0x20: "auxiliary_data", 0x30: "padding_data",
+         0xC8: "low_delay_picture", 0xE8: "high_quality_picture", 0xCC: "low_delay_picture_fragment",
+         0xEC: "high_quality_picture_fragment"}
+PROFILE_CODES = {0: {0x00, 0x10, 0x20, 0x30, 0xC8, 0xCC}, 3: {0x00, 0x10, 0x20, 0x30, 0xE8, 0xEC}}
+
+
+def reference_accepts(flat, slices, level_pattern=None):
+    """flat: per-unit dicts from build() (None markers ignored).  -> (bool, reason)"""
+    import symre_ref as R
+
+    sx, sy = slices
+    units = [m for m in flat if m is not None]
+    # split into sequences: each ends with its end-of-sequence unit
+    seqs, cur = [], []
+    for m in units:
+        cur.append(m)
+        if m["kind"] == "E":
+            seqs.append(cur)
+            cur = []
+    if cur:
+        return False, "stream ends inside a sequence"
+    for seq in seqs:
+        if seq[0]["kind"] != "H":
+            return False, "sequence does not start with a sequence header"
+        hdr = seq[0]
+        mv, prof, pcm = hdr["major_version"], hdr["profile"], hdr["pcm"]
+        names = [NAMES[m["code"]] for m in seq]
+        if level_pattern is not None and not R.complete(R.parse(level_pattern), names):
+            return False, "level ordering pattern"
+        need = max(1, 2 if prof == 3 else 1)
+        if mv < need:
+            return False, "profile needs a higher version"
+        last_num, npics, frag = None, 0, None  # frag = (number, received) while a fragmented picture is open
+        for i, m in enumerate(seq):
+            # parse offsets
+            if m["prev"] != (seq[i - 1]["len"] if i else 0):
+                return False, "previous parse offset"
+            if m["kind"] == "E":
+                if m["next"] != 0:
+                    return False, "non-zero next offset at end of sequence"
+            elif m["next"] != m["len"] and not (m["next"] == 0 and m["kind"] in "PFD"):
+                return False, "next parse offset"
+            # sequence headers byte-identical
+            if m["kind"] == "H" and m["a"] != hdr["a"]:
+                return False, "sequence header changed"
+            # profile / version permitted parse codes
+            if m["code"] not in PROFILE_CODES[prof]:
+                return False, "parse code not in profile"
+            code_need = 3 if m["code"] in (0xCC, 0xEC) else (2 if m["code"] == 0xE8 else 1)
+            if mv < code_need:
+                return False, "parse code needs a higher version"
+            need = max(need, code_need)
+            # pictures and fragments
+            if m["kind"] in "PF":
+                if frag is not None:
+                    return False, "picture or new fragmented picture inside a fragmented picture"
+                if last_num is not None and m["a"] != (last_num + 1) % 2 ** 32:
+                    return False, "picture numbers not consecutive"
+                if pcm == 1 and npics % 2 == 0 and m["a"] % 2:
+                    return False, "first field has an odd number"
+                last_num, npics = m["a"], npics + 1
+                if m["kind"] == "F":
+                    frag = (m["a"], 0)
+                    if sx * sy == 0:
+                        frag = None
+            elif m["kind"] == "D":
+                if frag is None:
+                    return False, "slices without a fragmented picture in progress"
+                num, got = frag
+                if m["a"] != num:
+                    return False, "picture number changed inside a fragmented picture"
+                if got + m["b"] > sx * sy:
+                    return False, "too many slices"
+                if (m["c"], m["d"]) != (got % sx, got // sx):
+                    return False, "slices not contiguous"
+                got += m["b"]
+                frag = None if got == sx * sy else (num, got)
+        if frag is not None:
+            return False, "incomplete fragmented picture"
+        if pcm == 1 and npics % 2:
+            return False, "odd number of fields"
+        if mv > need and not (npics == 0 and mv == 3):
+            return False, "major version not minimal"
+    return True, "conformant"
